@@ -20,9 +20,9 @@ func init() {
 	jobs = append(jobs, job{props: []string{"C01", "C02", "C03"}, fn: genBatchFacts})
 }
 
-// switchCases returns the case clauses of the first switch statement in fn
+// batSwitchCases returns the case clauses of the first switch statement in fn
 // whose tag prints as tag ("" = tagless switch).
-func switchCases(fn *ast.FuncDecl, tag string) []*ast.CaseClause {
+func batSwitchCases(fn *ast.FuncDecl, tag string) []*ast.CaseClause {
 	var res []*ast.CaseClause
 	found := false
 	ast.Inspect(fn.Body, func(n ast.Node) bool {
@@ -49,9 +49,9 @@ func switchCases(fn *ast.FuncDecl, tag string) []*ast.CaseClause {
 	return res
 }
 
-// firstReturn returns the printed results of the first return statement in a
+// batFirstReturn returns the printed results of the first return statement in a
 // case body.
-func firstReturn(body []ast.Stmt) []string {
+func batFirstReturn(body []ast.Stmt) []string {
 	for _, s := range body {
 		if r, ok := s.(*ast.ReturnStmt); ok {
 			var out []string
@@ -71,11 +71,11 @@ func batLastIdent(s string) string {
 	return s
 }
 
-func oneLine(s string) string { return strings.Join(strings.Fields(s), " ") }
+func batOneLine(s string) string { return strings.Join(strings.Fields(s), " ") }
 
 func genBatchFacts() {
 	l := newLean("BatchFacts", "Constants and decision tables of the batch verification code (order, account, poolscript, terms, auctioneerrpc).")
-	l.p("namespace Pool.Gen")
+	l.p("namespace Pool.Gen.Batch")
 
 	orderF := pkgFiles("order")
 	order := newConstEnv(orderF)
@@ -107,8 +107,8 @@ func genBatchFacts() {
 			fail("%s not found", fn)
 			continue
 		}
-		got := firstReturn(fd.Body.List)
-		if len(got) != 1 || oneLine(got[0]) != want {
+		got := batFirstReturn(fd.Body.List)
+		if len(got) != 1 || batOneLine(got[0]) != want {
 			fail("%s: return expression is %q, model expects %q", fn, got, want)
 		}
 	}
@@ -117,10 +117,10 @@ func genBatchFacts() {
 	if fd := findFunc(termsF, "LinearFeeSchedule.ExecutionFee"); fd == nil {
 		fail("LinearFeeSchedule.ExecutionFee not found")
 	} else {
-		got := firstReturn(fd.Body.List)
+		got := batFirstReturn(fd.Body.List)
 		parts := "0"
-		if len(got) == 1 && strings.HasPrefix(oneLine(got[0]), "amt * s.feeRate / ") {
-			parts = strings.ReplaceAll(strings.TrimPrefix(oneLine(got[0]), "amt * s.feeRate / "), "_", "")
+		if len(got) == 1 && strings.HasPrefix(batOneLine(got[0]), "amt * s.feeRate / ") {
+			parts = strings.ReplaceAll(strings.TrimPrefix(batOneLine(got[0]), "amt * s.feeRate / "), "_", "")
 		} else {
 			fail("LinearFeeSchedule.ExecutionFee: unexpected return %q", got)
 		}
@@ -137,9 +137,9 @@ func genBatchFacts() {
 		for _, s := range fd.Body.List {
 			switch x := s.(type) {
 			case *ast.AssignStmt:
-				stm = append(stm, oneLine(exprString(x.Lhs[0])+" "+x.Tok.String()+" "+exprString(x.Rhs[0])))
+				stm = append(stm, batOneLine(exprString(x.Lhs[0])+" "+x.Tok.String()+" "+exprString(x.Rhs[0])))
 			case *ast.ReturnStmt:
-				stm = append(stm, "return "+oneLine(exprString(x.Results[0])))
+				stm = append(stm, "return "+batOneLine(exprString(x.Results[0])))
 			}
 		}
 		want := []string{
@@ -156,18 +156,18 @@ func genBatchFacts() {
 		l.p("def p2wshOutputSize : Nat := %d", externConsts["input.P2WSHOutputSize"])
 		l.p("def inputSize : Nat := %d", externConsts["input.InputSize"])
 		l.p("def witnessScaleFactor : Nat := %d", externConsts["blockchain.WitnessScaleFactor"])
-		cases := switchCases(fd, "accountVersion")
+		cases := batSwitchCases(fd, "accountVersion")
 		var tapVers []string
 		okShape := len(cases) == 2
 		for _, c := range cases {
 			if len(c.List) == 0 {
 				// default
-				if len(c.Body) != 1 || oneLine(exprStmt(c.Body[0])) != "weightEstimate += poolscript.MultiSigWitnessSize" {
+				if len(c.Body) != 1 || batOneLine(batExprStmt(c.Body[0])) != "weightEstimate += poolscript.MultiSigWitnessSize" {
 					okShape = false
 				}
 				continue
 			}
-			if len(c.Body) != 1 || oneLine(exprStmt(c.Body[0])) != "weightEstimate += poolscript.TaprootMultiSigWitnessSize" {
+			if len(c.Body) != 1 || batOneLine(batExprStmt(c.Body[0])) != "weightEstimate += poolscript.TaprootMultiSigWitnessSize" {
 				okShape = false
 			}
 			for _, e := range c.List {
@@ -186,8 +186,8 @@ func genBatchFacts() {
 	} else {
 		var rows []string
 		def := "0"
-		for _, c := range switchCases(fd, "v") {
-			ret := firstReturn(c.Body)
+		for _, c := range batSwitchCases(fd, "v") {
+			ret := batFirstReturn(c.Body)
 			if len(ret) != 1 {
 				fail("ScriptVersion: case without single return")
 				continue
@@ -211,8 +211,8 @@ func genBatchFacts() {
 		fail("ValidateVersion not found")
 	} else {
 		var vs []string
-		for _, c := range switchCases(fd, "version") {
-			ret := firstReturn(c.Body)
+		for _, c := range batSwitchCases(fd, "version") {
+			ret := batFirstReturn(c.Body)
 			if len(c.List) == 0 {
 				if len(ret) != 1 || ret[0] == "nil" {
 					fail("ValidateVersion: default case no longer returns an error")
@@ -242,7 +242,7 @@ func genBatchFacts() {
 			if !ok {
 				return true
 			}
-			cond := oneLine(exprString(ifs.Cond))
+			cond := batOneLine(exprString(ifs.Cond))
 			if cond == "d.EndingBalance < MinNoDustAccountSize" {
 				dustCmp = true
 			}
@@ -278,8 +278,8 @@ func genBatchFacts() {
 	} else {
 		var rows []string
 		def := ""
-		for _, c := range switchCases(fd, "") {
-			ret := firstReturn(c.Body)
+		for _, c := range batSwitchCases(fd, "") {
+			ret := batFirstReturn(c.Body)
 			if len(ret) != 2 {
 				fail("DetermineCommitmentType: case without (type, bool) return")
 				continue
@@ -298,7 +298,7 @@ func genBatchFacts() {
 				fail("DetermineCommitmentType: case is not a ||/&& of two tests")
 				continue
 			}
-			lhs, rhs := oneLine(exprString(be.X)), oneLine(exprString(be.Y))
+			lhs, rhs := batOneLine(exprString(be.X)), batOneLine(exprString(be.Y))
 			const lp, rp = "ourOrder.ChannelType == ", "theirOrder.ChannelType == "
 			if !strings.HasPrefix(lhs, lp) || !strings.HasPrefix(rhs, rp) ||
 				strings.TrimPrefix(lhs, lp) != strings.TrimPrefix(rhs, rp) {
@@ -322,7 +322,7 @@ func genBatchFacts() {
 	} else {
 		var tap []string
 		nDefault := 0
-		for _, c := range switchCases(fd, "commitmentType") {
+		for _, c := range batSwitchCases(fd, "commitmentType") {
 			body := ""
 			for _, s := range c.Body {
 				body += batStmtString(s)
@@ -354,9 +354,9 @@ func genBatchFacts() {
 		fail("ParseRPCServerOrder not found")
 	} else {
 		var rows []string
-		for _, c := range switchCases(fd, "details.ChannelType") {
+		for _, c := range batSwitchCases(fd, "details.ChannelType") {
 			if len(c.List) == 0 {
-				if len(firstReturn(c.Body)) == 0 {
+				if len(batFirstReturn(c.Body)) == 0 {
 					fail("ParseRPCServerOrder: default channel type no longer returns an error")
 				}
 				continue
@@ -365,7 +365,7 @@ func genBatchFacts() {
 				fail("ParseRPCServerOrder: channel type case changed shape")
 				continue
 			}
-			as := oneLine(exprStmt(c.Body[0]))
+			as := batOneLine(batExprStmt(c.Body[0]))
 			if !strings.HasPrefix(as, "kit.ChannelType = ") {
 				fail("ParseRPCServerOrder: channel type case body %q", as)
 				continue
@@ -378,7 +378,7 @@ func genBatchFacts() {
 		l.p("def rpcChanTypeTable : List (Int × Nat) := [%s]", strings.Join(rows, ", "))
 	}
 
-	l.p("end Pool.Gen")
+	l.p("end Pool.Gen.Batch")
 }
 
 func batStmtString(s ast.Stmt) string {
@@ -387,5 +387,5 @@ func batStmtString(s ast.Stmt) string {
 	return sb.String()
 }
 
-// exprStmt prints an assignment / expression statement on one line.
-func exprStmt(s ast.Stmt) string { return batStmtString(s) }
+// batExprStmt prints an assignment / expression statement on one line.
+func batExprStmt(s ast.Stmt) string { return batStmtString(s) }
